@@ -1,9 +1,17 @@
 (* Correspondence glue for C18: compares the model's answers with the
    implementation's answers recorded by harness/drive_c18.py.             *)
 From Coq Require Import ZArith NArith List Bool.
+From Coq Require String Ascii.
 From XV Require Import model.Launcher model.LauncherParse.
 Import ListNotations.
 Open Scope Z_scope.
+
+(* texts are handed over as string literals (bytes = code points for the ASCII texts of the run) *)
+Fixpoint text_of_string (s : String.string) : list N :=
+  match s with
+  | String.EmptyString => []
+  | String.String a s' => Ascii.N_of_ascii a :: text_of_string s'
+  end.
 
 Fixpoint list_eqb {A} (e : A -> A -> bool) (a b : list A) : bool :=
   match a, b with
